@@ -1,13 +1,52 @@
-//! C20 part B: generated conversions compiled inside a #![no_std] library crate and run from a std driver.
+//! C20 part B: generated conversions compiled inside a #![no_std] library crate (dependencies exactly as the README
+//! "no_std" section: o2o-macros + o2o with default-features = false) and run from a std driver.
 
-use crate::explore::Caps;
+use super::bcommon::{run_items, BItem};
+use crate::explore::{explore, Caps};
 use crate::report::{Failure, Report};
+use crate::rt::BOpts;
+use crate::sem_struct::{CpForm, Flavour};
+use std::sync::Mutex;
 
-pub fn run_nostd(_tier: &str, _caps: &Caps, _rep: &Report) -> Result<(), String> {
-    // filled in with the B-engine no_std batch (see rt.rs `no_std`)
-    Ok(())
+pub fn collect(tier: &str, caps: &Caps, rep: &Report) -> Vec<BItem> {
+    let items: Mutex<Vec<BItem>> = Mutex::new(vec![]);
+    let quick = tier == "quick";
+    // structs (all 12 kinds); cells with known value/compile defects on positional counterparts are C01's business
+    let so = crate::sem_struct::Opts { max_n: 2, menu: crate::sem_struct::MENU_FULL, max_ghosts: 1, allow_update: true, permute_idx: false };
+    let sb = if quick { Some(3) } else { Some(5) };
+    let st = explore(|ctx| crate::sem_struct::gen(ctx, &so), sb, caps, |ch, c| {
+        if c.form == CpForm::BareTuple || c.tags.iter().any(|t| t.starts_with("slot!=") || t == "form=same-idx") {
+            return;
+        }
+        items.lock().unwrap().push(BItem { space: "nostd/struct".into(), choices: ch.to_vec(), tags: c.tags.clone(), inputs: vec![c.item("S", Flavour::Both).render()], module: c.render_module("x"), nontrivial: c.nontrivial() });
+    });
+    rep.add_stats("nostd/struct", &format!("dev({})", sb.unwrap()), &st);
+    let eo = crate::sem_enum::EOpts { max_variants: 2, max_fields: 1, full_menu: true };
+    let eb = if quick { Some(3) } else { Some(5) };
+    let st = explore(|ctx| crate::sem_enum::gen(ctx, &eo), eb, caps, |ch, c| {
+        items.lock().unwrap().push(BItem { space: "nostd/enum".into(), choices: ch.to_vec(), tags: c.tags.clone(), inputs: vec![c.item("S", None).render()], module: c.render_module(), nontrivial: c.nontrivial() });
+    });
+    rep.add_stats("nostd/enum", &format!("dev({})", eb.unwrap()), &st);
+    let fo = crate::sem_flat::FlatOpts { max_members: 3, max_ghosts: 1, max_depth: 2 };
+    let fb = if quick { Some(3) } else { Some(5) };
+    let st = explore(|ctx| crate::sem_flat::gen_child(ctx, &fo), fb, caps, |ch, c| {
+        items.lock().unwrap().push(BItem { space: "nostd/flat".into(), choices: ch.to_vec(), tags: c.tags.clone(), inputs: vec![c.item("S", true).render()], module: c.render_module(), nontrivial: true });
+    });
+    rep.add_stats("nostd/flat", &format!("dev({})", fb.unwrap()), &st);
+    let st = explore(|ctx| crate::sem_flat::gen_parent(ctx, 2), Some(if quick { 3 } else { 5 }), caps, |ch, c| {
+        items.lock().unwrap().push(BItem { space: "nostd/parent".into(), choices: ch.to_vec(), tags: c.tags.clone(), inputs: vec![c.item("S", true).render()], module: c.render_module(), nontrivial: true });
+    });
+    rep.add_stats("nostd/parent", "dev", &st);
+    items.into_inner().unwrap()
 }
 
-pub fn replay(_f: &Failure) -> i32 {
-    0
+pub fn run_nostd(tier: &str, caps: &Caps, rep: &Report) -> Result<(), String> {
+    let items = collect(tier, caps, rep);
+    eprintln!("  no_std batch: {} cases", items.len());
+    run_items("C20", items, rep, BOpts { no_std: true, features: "", name: "c20".into(), keep: std::env::var("VERIF_KEEP").is_ok() })
+}
+
+pub fn replay(f: &Failure) -> i32 {
+    println!("input:\n{}\n(no_std batch case; re-run ./check C20 to reproduce: space {} choices {:?})", f.input, f.space, f.choices);
+    1
 }
